@@ -13,6 +13,8 @@ EPS32 = float(numpy.finfo(numpy.float32).eps)
 def frac(x):
     """Exact value of a float / int / decimal string."""
     if isinstance(x, str):
+        if "/" in x:
+            return Fraction(x)          # a rational such as "1/7"
         return Fraction(Decimal(x))
     return Fraction(x)
 
